@@ -24,8 +24,9 @@ from bounded.oracle import language, serialise, valid, word_value
 PARSE_BUDGET_S = 20
 
 
-class _Timeout(Exception):
-    pass
+class _Timeout(BaseException):
+    """(not an Exception: neither the harnesses' nor fandango's own `except Exception` handlers may swallow the budget alarm --
+    a swallowed alarm was once compared as the outcome "raises _Timeout")"""
 
 
 def _alarm(signum, frame):
@@ -76,6 +77,16 @@ def latin1_variants(words):
     return out
 
 
+def wide_char_variants(words, limit=12):
+    """TEXT inputs in which one byte of a byte-serialised word is replaced by the character 256 code points up (same low 8 bits,
+    no 8-bit representation): such an input is the serialisation of no tree"""
+    out = []
+    for val in sorted((v for v in words if isinstance(v, bytes) and v), key=repr)[:limit]:
+        for i in (0, len(val) - 1):
+            out.append("".join(chr(b + (256 if j == i else 0)) for j, b in enumerate(val)))
+    return out
+
+
 def alphabet_of(words):
     chars = set()
     for v in words:
@@ -86,9 +97,11 @@ def alphabet_of(words):
 
 def near_misses(words, rnd, limit):
     vals = list(words)
-    alpha = alphabet_of(vals)
+    # (a language may hold text words and byte words: each kind is edited with characters / bytes of its own kind)
+    alphas = {True: alphabet_of([v for v in vals if isinstance(v, bytes)]), False: alphabet_of([v for v in vals if not isinstance(v, bytes)])}
     out = set()
     for v in vals:
+        alpha = alphas[isinstance(v, bytes)]
         mk = (lambda xs: bytes(xs)) if isinstance(v, bytes) else (lambda xs: "".join(xs))
         seq = list(v)
         for i in range(len(seq) + 1):
@@ -250,7 +263,7 @@ def run_spec(pid, name, tier, rnd, stats, samples):
     rnd.shuffle(inside)
     inside = inside[: (25 if tier == "quick" else 120)]
     if pid == "C04":
-        outside = latin1_variants(words) + near_misses(words, rnd, limit)
+        outside = latin1_variants(words) + wide_char_variants(words) + near_misses(words, rnd, limit)
         for w in inside + outside:
             stats["evaluations"] += 1
             stats["distinct"].add((name, repr(w)))
@@ -346,7 +359,107 @@ def check_update_scenario(name, stats):
     return problems
 
 
+# specs with COMPUTED repetition counts: (spec, inputs in the order in which they are parsed, membership oracle on the input).
+# One grammar object and one Fandango object serve the whole list, twice over: what was parsed before must not matter.
+CONTEXT_CASES = {
+    "two_counted_records": (
+        '<start> ::= <rec>+\n<rec> ::= <ra> | <rb>\n<ra> ::= "A" <len> ":" <x>{int(<len>)} ";"\n<rb> ::= "B" <len> ":" <y>{int(<len>)} ";"\n'
+        '<len> ::= r"[0-9]"\n<x> ::= r"[a-z]"\n<y> ::= r"[0-9]"\n',
+        ["A2:ab;", "B2:12;", "A1:z;B3:123;A2:qq;", "B2:12;A2:34;", "A2:34;", "B2:ab;", "B2:12;A2:cd;", "A2:cd;B2:ab;", "B2:12;A2:3;", "A2:a1;",
+         "B1:1;A1:a;B1:2;", "A3:ab;", "A0:;", "B0:;A1:b;"],
+        lambda w: _records_ok(w)),
+    "counted_then_counted_other_length": (
+        '<start> ::= <n> ":" <i>{int(<n>)} "/" <m> ":" <j>{int(<m>)}\n<n> ::= r"[0-3]"\n<m> ::= r"[0-3]"\n<i> ::= "a" | "b"\n<j> ::= "0" | "1"\n',
+        ["2:ab/2:01", "1:a/2:01", "2:ab/1:0", "2:ab/2:ab", "2:01/2:01", "0:/0:", "3:aba/1:1", "1:ab/1:0", "2:a/2:01", "1:a/1:1", "1:1/1:a"],
+        lambda w: _two_counted_ok(w)),
+}
+
+
+# a spec given as SEVERAL strings (Fandango([s1, s2]); each string has operators of its own)
+CONTEXT_CASES["spec_in_two_strings"] = (
+    ["<start> ::= <a>+ ';' <b>\n<a> ::= 'a'\n", "<b> ::= 'x'+\n"],
+    ["aa;xx", "xx;xx", "a;x", "a;a", ";x", "aaa;x", "x;a"],
+    lambda w: __import__("re").fullmatch(r"a+;x+", w) is not None)
+CONTEXT_CASES["spec_in_three_strings"] = (
+    ["<start> ::= <a>? <b> <c>\n<a> ::= 'a'\n", "<b> ::= 'b'? 'k'\n", "<c> ::= ('c' 'd'?)?\n"],
+    ["k", "ak", "abk", "abkc", "bkcd", "akd", "aak", "bk", "kcc", "abkcd", "b"],
+    lambda w: __import__("re").fullmatch(r"a?b?k(cd?)?", w) is not None)
+
+
+def _records_ok(w):
+    import re as _re
+    pos = 0
+    if not w:
+        return False
+    while pos < len(w):
+        m = _re.match(r"([AB])([0-9]):", w[pos:])
+        if not m:
+            return False
+        n = int(m.group(2))
+        body = w[pos + 3: pos + 3 + n]
+        if len(body) != n or w[pos + 3 + n: pos + 4 + n] != ";":
+            return False
+        if not _re.fullmatch(r"[a-z]*" if m.group(1) == "A" else r"[0-9]*", body):
+            return False
+        pos += 4 + n
+    return True
+
+
+def _two_counted_ok(w):
+    import re as _re
+    m = _re.fullmatch(r"([0-3]):([ab]*)/([0-3]):([01]*)", w)
+    return bool(m) and len(m.group(2)) == int(m.group(1)) and len(m.group(4)) == int(m.group(3))
+
+
+def check_context_case(name, stats, only_word=None):
+    """C04 for specs with computed repetition counts, over histories of ONE grammar / ONE Fandango object: every tree yielded by
+    the grammar-level parse is a derivation (computed counts relaxed: they are the constraints' business) of exactly the input;
+    every tree the public API yields is in addition one of an input the oracle accepts, and satisfies the spec's constraints"""
+    from fandango import Fandango
+    from fandango.language.parse.parse import parse
+    text, words, oracle = CONTEXT_CASES[name]
+    grammar, _ = parse(text, use_stdlib=False, use_cache=False)
+    fan = Fandango(text, use_stdlib=False, use_cache=False)
+    problems = []
+    for rnd_no in range(2):
+        for w in words:
+            stats["evaluations"] += 1
+            stats["distinct"].add((name, repr(w)))
+            for p in check_parse_sound(name, grammar, w, stats):
+                problems.append((w, f"(parse #{rnd_no * len(words) + words.index(w) + 1} on one grammar object) " + p))
+            res, to = with_budget(lambda: list(fan.parse(w)))
+            if to:
+                stats["timeouts"] += 1
+                continue
+            if res and not oracle(w):
+                problems.append((w, f"(parse #{rnd_no * len(words) + words.index(w) + 1} on one Fandango object) API parse yields a tree for an input outside the constrained language"))
+            _, cs = parse(text, use_stdlib=False, use_cache=False)
+            for t in res:
+                ok, why = valid(fan.grammar, t)
+                if not ok:
+                    problems.append((w, f"API parse: yielded tree is not a derivation: {why}"))
+                if serialise(t) != w:
+                    problems.append((w, f"API parse: serialisation {serialise(t)!r} differs from the input"))
+                for c in cs:
+                    try:
+                        good = c.check(t)
+                    except Exception:          # noqa: BLE001
+                        good = False
+                    if not good:
+                        problems.append((w, f"API parse yielded a tree violating `{c.format_as_spec()}`"))
+    if only_word is not None:
+        problems = [q for q in problems if q[0] == only_word] or problems
+    return problems
+
+
 def replay(pid, name, word):
+    if name in CONTEXT_CASES:
+        stats = {"evaluations": 0, "distinct": set(), "trees": 0, "timeouts": 0}
+        probs = check_context_case(name, stats, only_word=word)
+        for w, p in probs[:5]:
+            print("VIOLATION reproduced:", name, repr(w), p)
+        print("spec:\n" + (CONTEXT_CASES[name][0] if isinstance(CONTEXT_CASES[name][0], str) else "\n--- next string ---\n".join(CONTEXT_CASES[name][0])) + "inputs parsed in this order, twice: " + repr(CONTEXT_CASES[name][1]))
+        return 1 if probs else 0
     if name in UPDATE_SCENARIOS:
         stats = {"evaluations": 0, "distinct": set(), "trees": 0, "timeouts": 0}
         probs = check_update_scenario(name, stats)
@@ -372,6 +485,15 @@ def replay(pid, name, word):
         res, _ = with_budget(first_tree)
         probs = [] if (res is not None and not isinstance(res, Exception)) else [
             "a word of the grammar's language / a generated word is rejected by parse" if res is None else f"parse raises {type(res).__name__} on a word of the language"]
+    if not probs:
+        # not reproduced by this request alone: the outcome may depend on the requests issued BEFORE it on the same grammar
+        # object (text words and byte words of one language, in the harness's order)
+        stats = {"evaluations": 0, "distinct": set(), "trees": 0, "timeouts": 0}
+        for sd in range(3):
+            found = run_spec(pid, name, "quick", random.Random(sd), stats, [])
+            if found:
+                probs = [f"in the sequence of requests the harness issues on ONE grammar object (shuffle seed {sd}): input {w!r}: {q}" for _, w, q in found[:5]]
+                break
     for p in probs:
         print("VIOLATION reproduced:", name, repr(word), p)
     print("spec:\n" + family.SPECS[name])
@@ -393,6 +515,13 @@ def run(tier="quick", seed=0, pid="C04"):
             return {"evaluations": stats["evaluations"], "distinct_nontrivial": len(stats["distinct"]), "rule": "", "samples": samples,
                     "violations": [], "undecided": [f"harness error on spec {name}: {type(e).__name__}: {e}"]}
     if pid == "C04":
+        for name in CONTEXT_CASES:
+            try:
+                for w, p in check_context_case(name, stats):
+                    found.append((name, w, p))
+            except Exception as e:
+                return {"evaluations": stats["evaluations"], "distinct_nontrivial": len(stats["distinct"]), "rule": "", "samples": samples,
+                        "violations": [], "undecided": [f"context case {name}: {type(e).__name__}: {e}"]}
         for name in UPDATE_SCENARIOS:
             try:
                 for w, p in check_update_scenario(name, stats):
